@@ -144,6 +144,11 @@ def _build_resume(gid, p):
                 src = blob
             elif route == "dict":
                 src = pickle.loads(blob)
+            elif route == "live_dict":
+                # the very dictionary object the callback was handed (what
+                # sampler.last_checkpoint_state or a user callback keeps), not a serialised copy
+                lives = [e["_state"] for e in crashed["tracer"].ev if e["t"] == "ckpt"]
+                src = lives[-1]
             elif route == "path":
                 src = path
             else:
@@ -163,7 +168,7 @@ def _build_resume(gid, p):
                 crashed2["restore_state"] = state
                 if crashed2["status"] == "fault" and crashed2["tracer"].payloads:
                     blob2 = crashed2["tracer"].payloads[-1]
-                    src2 = blob2 if route != "dict" else pickle.loads(blob2)
+                    src2 = blob2 if route not in ("dict", "live_dict") else pickle.loads(blob2)
                     if route == "path":
                         src2 = path
                     res2 = smcdrv.run_smc(c3, ids=ids, role="resumed", resume_from=src2)
@@ -537,7 +542,7 @@ def corpus_resume(tier, seed, rnd):
         elif len(ks) > 40:
             ks = sorted(rnd.sample(ks, 40))
         for fk in ks:
-            route = rnd.choice(["bytes", "dict", "path"])
+            route = rnd.choice(["bytes", "dict", "live_dict", "path"])
             p = {"cfg": c, "fault_k": fk, "route": route}
             if rnd.random() < 0.15:
                 p["fault_k2"] = rnd.choice([1, 2, 3, 5])
@@ -975,7 +980,10 @@ def rule_default(g, r, fin):
 CHECKS = {
     "C06": dict(corpus=corpus_schedule, e1=[e1_tempering]),
     "C07": dict(corpus=corpus_schedule, e1=[e1_tempering]),
-    "C08": dict(corpus=lambda t, s, r: corpus_general(t, s, r, 200 if t == "quick" else 3000) + [dict(x, id="v" + x["id"]) for x in corpus_variants(t, s, r)], e1=[e1_smcrun]),
+    "C08": dict(corpus=lambda t, s, r: corpus_general(t, s, r, 200 if t == "quick" else 3000)
+                + [dict(x, id="v" + x["id"]) for x in corpus_variants(t, s, r)]
+                + [dict(x, id="r" + x["id"]) for x in corpus_resume(t, s, r)][: (120 if t == "quick" else 3000)],
+                e1=[e1_smcrun]),
     "C09": dict(corpus=lambda t, s, r: corpus_general(t, s, r, 150 if t == "quick" else 3000), e1=[],
                 extra=lambda v, t, s: __import__("e3_resample").replay(v, t, s)),
     "C10": dict(corpus=lambda t, s, r: corpus_general(t, s, r) + corpus_calls(t, s, r), e1=[e1_smcrun]),
